@@ -56,7 +56,9 @@ MaskedEq(o, e) ==        \* o: specification, e: logged
           (o.has[i][j] = e.has[i][j]) =>
              /\ o.lab[i][j] = e.lab[i][j] /\ o.labd[i][j] = e.labd[i][j]
              /\ \A lb \in 1 .. 3 : o.hasl[lb][i][j] = e.hasl[lb][i][j]
-OutDiffers(ev, r) == r.out # ev.out /\ ~(MaskByHas /\ "out_of_range" \notin {r.out, ev.out})
+\* which exception a rejected call throws is C07's subject (OnlyRejected); the other checks only
+\* distinguish accepted from rejected calls
+OutDiffers(ev, r) == ((r.out = "ok") # (ev.out = "ok")) /\ ~(MaskByHas /\ "out_of_range" \notin {r.out, ev.out})
 Differs(ev, r) == OutDiffers(ev, r) \/ (IF MaskByHas /\ "n" \in DOMAIN ev.obs /\ ev.obs.n = r.g.n
                                        THEN ~MaskedEq(Obs(r.g), ev.obs) ELSE Proj(Obs(r.g)) # ev.obs)
 
